@@ -26,10 +26,10 @@ func init() {
 		Rule:        "the Go race detector observes the real code (harness built with -race, GORACE halt_on_error=0 log_path=...) under four program families, with no synchronising instrumentation (no recording hook handler, thread-local operation logs merged after the join): P1 cold start (goroutines released together right after Open, each with a different first operation, on fresh handles), P2 steady mixed workload (autocommit, all four levels, Create, GetReader, GetKeys, collector actor, scheduled collector every 2 ms, deferred worker-pool path), P3 the gRPC server with several clients in one instrumented process, P4 Create with many small writes. Every 'WARNING: DATA RACE' block and every 'fatal error:' is parsed; a report counts when one of its two access stacks has an fs_db frame (fs_db code or its use of a dependency); reports are de-duplicated by the pair of innermost fs_db functions. evaluations = client operations executed under the detector; distinct_nontrivial = distinct overlapping operation-kind pairs (from the thread-local logs)",
 		Assumptions: []string{"Go race detector: no false positives on Go synchronisation primitives; a clean run is not a proof of race freedom"},
 		Roles: map[string]Role{
-			"p1cold":   {N: func(t string) int { return tierN(t, 30, 600) }, Case: c15Case("p1"), Race: true, Env: raceEnv()},
-			"p2steady": {N: func(t string) int { return tierN(t, 6, 120) }, Case: c15Case("p2"), Race: true, Env: raceEnv()},
-			"p3server": {N: func(t string) int { return tierN(t, 3, 60) }, Case: c15Case("p3"), Race: true, Env: raceEnv()},
-			"p4create": {N: func(t string) int { return tierN(t, 3, 60) }, Case: c15Case("p4"), Race: true, Env: raceEnv()},
+			"p1cold":   {N: func(t string) int { return tierN(t, 30, 1500) }, Case: c15Case("p1"), Race: true, Env: raceEnv()},
+			"p2steady": {N: func(t string) int { return tierN(t, 6, 320) }, Case: c15Case("p2"), Race: true, Env: raceEnv()},
+			"p3server": {N: func(t string) int { return tierN(t, 3, 160) }, Case: c15Case("p3"), Race: true, Env: raceEnv()},
+			"p4create": {N: func(t string) int { return tierN(t, 3, 160) }, Case: c15Case("p4"), Race: true, Env: raceEnv()},
 		},
 	})
 }
